@@ -2,6 +2,7 @@
 From Coq Require Import ZArith List Bool.
 From B2Z Require Import Base.Prims Model.Schema Proofs.SchemaProofs Bridge.BridgeDtype.
 From B2Z Require Gen.GenDtype.
+From B2Z Require Import Gen.GenSchema Bridge.BridgeSchema.
 Import ListNotations.
 Open Scope Z_scope.
 
@@ -54,6 +55,44 @@ Theorem widening_preserves_values : forall d d' v, int_code d -> int_code d' -> 
   in_dtype d v = true -> cast d' v = v.
 Proof. exact widening_lemma. Qed.
 Print Assumptions widening_preserves_values.
+
+(* ---- TRANSLATOR TIE: VcfField.smallest_dtype and ZarrArraySpec.from_field (with the shared-dimension table of
+   VcfZarrSchema.generate) as regenerated from the source on this run (translator/schema2coq.py ->
+   Gen/GenSchema.v) are the model's functions, for every field and every parameter set ... *)
+Theorem translated_smallest_dtype_is_the_model : forall f, gen_smallest_dtype f = smallest_dtype f.
+Proof. exact translated_smallest_dtype_lemma. Qed.
+Print Assumptions translated_smallest_dtype_is_the_model.
+
+Theorem translated_from_field_is_the_model : forall p f name, gen_from_field p f name = from_field p f name.
+Proof. exact translated_from_field_lemma. Qed.
+Print Assumptions translated_from_field_is_the_model.
+
+(* ... hence the two "fits" statements hold of the translated source: the dtype it chooses holds every stored integer
+   and both sentinels (the encode-time cast is the identity), and the array it lays out has one row per record and an
+   inner dimension of exactly max_number *)
+Theorem translated_schema_fits : forall f dt v, f_type f = 0 -> gen_smallest_dtype f = Ok dt -> stored_int f v ->
+  in_dtype dt v = true /\ cast dt v = v.
+Proof. intros f dt v H1 H2 H3. rewrite translated_smallest_dtype_lemma in H2. exact (generated_dtype_fits_lemma f dt v H1 H2 H3). Qed.
+Print Assumptions translated_schema_fits.
+
+Theorem translated_shape_fits : forall p f name s, gen_from_field p f name = Ok s ->
+  gen_smallest_dtype f = Ok (sp_dtype s) /\
+  length (sp_shape s) = length (sp_dims s) /\ length (sp_chunks s) = length (sp_dims s) /\
+  hd 0 (sp_shape s) = g_m p /\
+  (1 < s_max_number (f_sum f) -> last (sp_shape s) 0 = s_max_number (f_sum f)
+                                 /\ last (sp_chunks s) 0 = s_max_number (f_sum f)).
+Proof. intros p f name s H. rewrite translated_from_field_lemma in H. rewrite translated_smallest_dtype_lemma. exact (from_field_shape_lemma p f name s H). Qed.
+Print Assumptions translated_shape_fits.
+
+Example translated_from_field_instance :
+  let p := {| g_m := 7; g_n := 3; g_vcs := 4; g_scs := 2; g_num_contigs := 2; g_num_filters := 1; g_max_alleles := 3; g_gsize := 6 |} in
+  let f := {| f_cat := 2; f_id := 5; f_number := -1; f_type := 0; f_is_laa := false; f_sum := {| s_max_number := 3; s_bounds := Some (-3, 300) |} |} in
+  let g := {| f_cat := 2; f_id := 6; f_number := -1; f_type := 0; f_is_laa := false; f_sum := {| s_max_number := 2; s_bounds := None |} |} in
+  gen_from_field p f (AField 2 5) = Ok {| sp_name := AField 2 5; sp_dtype := 2; sp_shape := [7; 3; 3]; sp_chunks := [4; 2; 3];
+                                          sp_dims := [DVariants; DSamples; DAlleles]; sp_field := Some (2, 5) |} /\
+  gen_from_field p g (AField 2 6) = Ok {| sp_name := AField 2 6; sp_dtype := 1; sp_shape := [7; 3; 2]; sp_chunks := [4; 2; 2];
+                                          sp_dims := [DVariants; DSamples; DField 2 6]; sp_field := Some (2, 6) |}.
+Proof. vm_compute. split; reflexivity. Qed.
 
 Example c10_instance : GenDtype.min_int_dtype (-129) 5 = Ok 2 /\ cast 1 200 = -56 /\ cast 2 200 = 200.
 Proof. vm_compute. repeat split; reflexivity. Qed.
